@@ -146,6 +146,7 @@ def _gen(tier):
     cases = [p for p in printed if "e" in p]
     for i, c in enumerate(cases):
         c["id"] = i
+    gen.design = [p for p in printed if "design" in p]
     return gen, envs[0], cases
 
 
@@ -153,7 +154,10 @@ def run(tier, seed, out):
     wd = kit.fresh_workdir("C13")
     gen, envs, cases = _gen(tier)
     out.add_tlc(gen)
-    kit.log(f"C13: TLC generated {len(cases)} (tree, listed variables) cases ({gen.wall:.1f}s)")
+    kit.log(f"C13: TLC generated {len(cases)} (tree, listed variables) cases ({gen.wall:.1f}s); "
+            f"{len(gen.design)} trees whose printed source means something else under Python's grammar (model)")
+    out.extra["design_level_failures_on_model"] = len(gen.design)
+    out.extra["design_level_examples"] = [d["de"] for d in gen.design[:3]]
     recs = kit.drive("harness.c13", "drive_case", cases, {"envs": envs}, chunk=300)
     out.evaluations += sum((2 + (3 if r["full"] else 0)) * len(envs) for r in recs)
     judge(out, recs, wd)
